@@ -26,7 +26,7 @@ ASSUMPTIONS = ['Fraction arithmetic is exact; numpy.broadcast_shapes/broadcast_t
 OPS = {'add': operator.add, 'sub': operator.sub, 'mul': operator.mul, 'div': operator.truediv}
 IOPS = {'add': operator.iadd, 'sub': operator.isub, 'mul': operator.imul, 'div': operator.itruediv}
 SCALAR_KINDS = ['int', 'float', 'complex', 'npf64', 'npi64', 'npc128', 'npf32', '0d']
-ARRAY_KINDS = ['arr_f', 'arr_i', 'arr_c']
+ARRAY_KINDS = ['arr_f', 'arr_i', 'arr_c', 'arr_u8']
 XSHAPES = [(), (1,), (3,), (2, 3), (1, 3), (2, 1), (2, 1, 2), (2, 2, 3), (3, 3)]
 
 
@@ -75,9 +75,15 @@ def cases(tier, seed):
                             out.append({'kind': 'arith', 'seed': s, 'params': {
                                 'op': op, 'form': form, 'other': kind, 'rel': rel, 'D': D, 'P': int(r.integers(1, 4)),
                                 'xshape': list(XSHAPES[int(r.integers(len(XSHAPES)))]),
-                                'data': ['ints', 'random', 'complex', 'random'][int(r.integers(4))],
-                                'odata': ['ints', 'random', 'complex', 'random'][int(r.integers(4))],
+                                'data': ['ints', 'random', 'complex', 'random', 'tiny'][int(r.integers(5))],
+                                'odata': ['ints', 'random', 'complex', 'random', 'tiny'][int(r.integers(5))],
                                 'layout': ['C', 'C', 'F', 'T', 'strided', 'reversed'][int(r.integers(6))]}})
+    for op in OPS:
+        for form in ('binary', 'inplace'):
+            for D in ((33, 40) if tier == 'quick' else (32, 33, 40, 64, 65)):
+                s = case_seed('C02', seed, 'highD', op, form, D)
+                out.append({'kind': 'arith', 'seed': s, 'params': {'op': op, 'form': form, 'other': 'utpm', 'rel': 'same', 'D': D, 'P': 1 + D % 2,
+                                                                  'xshape': [2], 'data': 'random', 'odata': 'random', 'layout': 'C'}})
     for pk in ('pow_pyint', 'pow_npint', 'pow_float', 'pow_npfloat', 'pow_complex', 'rpow_float', 'rpow_int', 'rpow_complex', 'pow_utpm', 'pow_utpm_bcast'):
         for D in Ds:
             for rep in range(2 * reps):
@@ -100,7 +106,7 @@ def required():
 def _mk_other(rng, kind, shape, data, divisor):
     """value of the non-polynomial operand; non-zero (|v|>=0.5) when used as divisor base"""
     def nz(v):
-        return v if not divisor else np.where(np.abs(v) < 0.5, np.sign(np.real(v) + 0.1) * 1.5, v)
+        return v if not divisor else np.where(np.abs(v) < 0.5, np.where(np.real(v) >= 0, 1.5, -1.5), v)
     if kind == 'int':
         return int(nz(np.array(int(rng.integers(-4, 5)))))
     if kind == 'float':
@@ -123,6 +129,8 @@ def _mk_other(rng, kind, shape, data, divisor):
         return nz(rng.integers(-4, 5, size=shape)).astype(np.int64)
     if kind == 'arr_c':
         return nz(rng.normal(size=shape) * 2) + 1j * rng.normal(size=shape)
+    if kind == 'arr_u8':
+        return rng.integers(1, 6, size=shape).astype(np.uint8)
     raise KeyError(kind)
 
 
@@ -140,6 +148,8 @@ def _mk_utpm_data(rng, D, P, shape, data, divisor):
         x = rng.normal(size=(D, P) + shape)
         if divisor:
             x[0] = rng.uniform(0.6, 2.5, size=(P,) + shape) * rng.choice([-1.0, 1.0], size=(P,) + shape)
+        if data == 'tiny' and D > 1:
+            x[1:] *= 10.0 ** -float(rng.integers(8, 13))       # an almost constant polynomial is still a polynomial
     return x
 
 
@@ -251,6 +261,8 @@ def run_case(ctx, case):
     ix = np.broadcast_to(np.arange(nx).reshape(xs), out_shape)
     io = np.broadcast_to(np.arange(no).reshape(os_), out_shape)
     idxs = list(np.ndindex(*out_shape)) if out_shape else [()]
+    if D > 20:
+        idxs = idxs[:1]
     if len(idxs) > 5:
         idxs = [idxs[i] for i in rng.choice(len(idxs), size=5, replace=False)]
     worst = 0.0
